@@ -108,6 +108,9 @@ def check_items(prop, items, seed=0, do_search=True, per=6):
             it.detail = {"kind": "unsupported-blueprint", "message": str(e)}
             continue
         it.meta = meta
+        if meta.get("mem_problems") and getattr(it, "s5", False):
+            it.status = "known:S5"
+            continue
         if meta.get("entity_problems") or meta.get("mem_problems"):
             it.status = "violation"
             it.detail = {"kind": "placed entity / memory gate not found exactly once",
@@ -151,9 +154,8 @@ def check_items(prop, items, seed=0, do_search=True, per=6):
         ideal_ok = ires.get(it.id)
         s10 = bool(it.harvest and "edges" in it.harvest and bpexport.s10_region(it.bpj, it.harvest))
         s16 = bool(it.harvest and "edges" in it.harvest and bpexport.s16_region(it.bpj, it.harvest))
-        s17 = bool(it.harvest and "edges" in it.harvest and bpexport.s17_region(it.bpj, it.harvest))
-        if ideal_ok is None and s17:
-            it.status = "known:S17"
+        if getattr(it, "s5", False):
+            it.status = "known:S5"
         elif ideal_ok is False and s19_region(it):
             it.status = "known:S19"
         elif ideal_ok is False and s9_region(it):
